@@ -129,6 +129,13 @@ func init() {
 	add(word("$v$w", wPE("v"), wPE("w")))
 	add(word(`a"d"`, wLit("a"), wDQ(wLit("d"))))
 	add(word("a$(c)", wLit("a"), wCS(true, simpleCmd("c"))))
+	// arithmetic expressions made of several parts (multi-byte text next to an expansion, blanks between the parts)
+	add(word("$((é+$v))", wAE(wLit("é+"), wPE("v"))))
+	add(word("$((1+$v))", wAE(wLit("1+"), wPE("v"))))
+	add(word("$(($v+é))", wAE(wPE("v"), wLit("+é"))))
+	add(word(`$((é+"d"))`, wAE(wLit("é+"), wDQ(wLit("d")))))
+	add(word("$((1 + $v))", wAE(wLit("1"), wLit("+"), wPE("v"))))
+	add(sym{text: "((é+$v))", kind: kArith, parts: func() ast.Word { return ast.Word{wLit("é+"), wPE("v")} }})
 	// a "$" that introduces nothing is an ordinary character (go.sh keeps it as a literal part of its own)
 	add(word("$", wLit("$")))
 	add(word("a$", wLit("a"), wLit("$")))
